@@ -1,6 +1,7 @@
 import Driver.Codec
 import LopdfModel.Model.Text
 import LopdfModel.Model.TextExtract
+import LopdfModel.Model.ExtractText
 namespace Lopdf.Driver.C16
 open Lopdf Lopdf.Codec Lopdf.Gen
 
@@ -128,6 +129,19 @@ def handle (op : String) (args : List String) : Option String :=
         | some content => showOut (extractTextOfContent fonts content)
         | none => "bad-op"
       | _ => "bad-op"
+    | [] => "bad-op"
+  | "c16.xdoc" =>                      -- <page number> <trailer> <k> (<num> <gen> <obj>)*  -> ok <ustr> | err
+    -- whole-document `extract_text(&[n])` through the composed model (pages, fonts, content, decode, loop);
+    -- only sent for documents without stream filters, so flate2 / weezl are never consulted
+    some <| match args with
+    | n :: rest =>
+      match n.toNat?, parseObj rest with
+      | some n, some (.dict tr, k :: rest') =>
+        match k.toNat?.bind (fun k => parseObjects k rest') with
+        | some (os, []) =>
+          showOut (Q13.extractTextDoc (2 ^ 33) { inflate := fun b => b, lzw := fun _ b => b } tr os [n])
+        | _ => "bad-op"
+      | _, _ => "bad-op"
     | [] => "bad-op"
   | _ => none
 
